@@ -49,7 +49,8 @@ fn routes_json(r: &[Vec<Hop>]) -> Value {
 }
 
 fn gen_route(rng: &mut Rng) -> Vec<Hop> {
-    let n = rng.range(1, 4);
+    // an allow-list may (pointlessly but legally) contain an empty route
+    let n = if rng.chance(1, 12) { 0 } else { rng.range(1, 4) };
     (0..n).map(|_| Hop { pool: *rng.pick(&[0u64, 1, 2, 7, 1000, u64::MAX]), din: rng.below(5) as u8, dout: rng.below(5) as u8 }).collect()
 }
 
@@ -112,7 +113,7 @@ pub fn gen(seed: u64, prop: &str) -> TCase {
                 };
                 TOp::Swap { who: if rng.chance(2, 3) { 1 } else { rng.below(6) as u8 }, exact_in, route, denom, amount: *rng.pick(&[0u128, 1, 1000, 123456789, u128::MAX]), limit: *rng.pick(&[0u128, 1, 999, u128::MAX]) }
             }
-            5 | 6 => TOp::Spend { who: if rng.chance(2, 3) { 0 } else { rng.below(6) as u8 }, denom: rng.below(5) as u8, amount: *rng.pick(&[1u128, 1000, 5_000_000]), receiver: rng.below(8) as u8, channel: if rng.chance(1, 2) { Some(rng.below(3) as u8) } else { None } },
+            5 | 6 => TOp::Spend { who: if rng.chance(2, 3) { 0 } else { rng.below(6) as u8 }, denom: rng.below(5) as u8, amount: *rng.pick(&[1u128, 1000, 5_000_000]), receiver: rng.below(14) as u8, channel: if rng.chance(1, 2) { Some(rng.below(3) as u8) } else { None } },
             7 => {
                 let new_routes = if rng.chance(1, 2) { Some((0..rng.below(4)).map(|_| gen_route(&mut rng)).collect::<Vec<_>>()) } else { None };
                 if let Some(r) = &new_routes {
@@ -201,6 +202,13 @@ pub fn eval(c: &TCase) -> Eval {
         },
         String::new(),
         "osmo1".into(),
+        // checksum-valid addresses whose prefix merely extends the required one
+        addr20("osmovaloper", "rcv8"),
+        addr20("osmosis", "rcv9"),
+        addr20("celestiavaloper", "rcv10"),
+        addr20("celestiax", "rcv11"),
+        addr20("osm", "rcv12"),
+        addr20("celesti", "rcv13"),
     ];
     let who_addr = |m: &TModel, who: u8| -> String {
         match who {
